@@ -67,6 +67,10 @@ CLAIMS = {
    technique="runtime monitoring with fault enumeration: instrumented key database and fetcher stubs record every request while a sequential key-ring model (written from the statement) predicts each result; the single-request product of database states x fetcher behaviours x timestamps x validity rule x message shapes is enumerated completely, batches are sampled; CheckKeys, DirectKeyFetcher and PerspectiveKeyFetcher are driven over scripted key clients",
    text="Every (database state, fetcher-1 behaviour, fetcher-2 behaviour, timestamp boundary, strict/lenient, message shape) combination for one request is executed against the real KeyRing (exhaustive_subspace), plus thousands of batches with independent per-key source states. Monitors: result vector length and order, each result vs the model, a model-independent soundness check (success needs a consulted source holding a verifying key valid at that time), fetchers asked only about keys the database lacks or holds past validity, fetched records handed to StoreKeys unchanged. Key responses: CheckKeys with a controlled now and one fault each; the direct / notary-fallback / perspective fetch paths with signed, unsigned, mis-named, wrongly-notarised objects.",
    note=TB + "validity boundaries >= 1 h from the wall clock; abstains where 'all keys found' per request vs per key matters, on colliding fetcher extras, and on the wall-clock freshness of key responses inside the fetchers (they pass the epoch as now)."),
+ "C18": dict(level="exploration", design="§4 C18",
+   technique="runtime monitoring: panic monitors around every public entry point reachable with remote data, each input logged before execution in a child process per shard (process-fatal errors attributed by the driver); inputs from systematic hostile-value field enumeration (plain and re-hashed / re-signed as a protocol-literate attacker would), seeded byte mutation and random bytes",
+   text="~45 hostile JSON values x 18 top-level fields and the members of every special content x 10 event shapes x 16 room versions, each also with the content hash recomputed and valid signatures attached so that the event passes the hash gate, then ~30k byte-mutated inputs per run for events and for every other network decoder. Whatever NewEventFromUntrustedJSON accepts is driven through every accessor, Redact, SetUnsigned(Field), Sign, headered JSON, signature verification, StateNeededForAuth, Allowed (as event and as auth state), all resolvers and orderings; other bytes go through the JSON, signing, key, HTTP-auth, identifier, token and fclient decoders, CheckStateResponse / CheckSendJoinResponse / LoadAndVerify. Evidence counts entry-point calls and inputs accepted by a parser. Absence of panics is only ever 'none in N executions'.",
+   note=TB + "events from the trusted parsers (caller's own store) are parsed but not exercised further; deliberate programmer-error panics are not driven."),
 }
 NOT_YET = "check not built yet (work in progress; see DESIGN.md §4 for the planned monitor)"
 
